@@ -932,6 +932,11 @@ def run(ctx, scratch):
             spec, fam = gen_matrix(rng, kind, (6 if kind == 'directed' else 8 if small else nmax))
             if kind == 'directed' and spec['shape'][0] > 6:
                 continue
+            if rng.random() < (0.4 if kind == 'directed' else 0.15):
+                # single-precision storage, weights in eighths (exact in float32): a digraph whose weights are all below 1, or whose
+                # reciprocal weights differ only in their fractional parts, is a digraph
+                spec = dict(spec, coo=[[i, j, w / 8] for (i, j, w) in spec['coo']], dtype='float32')
+                fam += '_f32'
             nr, nc = spec['shape']
             fb = kind == 'undirected' and nr <= 6 and rng.random() < 0.1
             b = dense(spec)
